@@ -289,7 +289,9 @@ def writeImpl (h : Nat) : Ty → Val → R Bytes
   | .f64, .f64 b => if b < 2 ^ 64 then .ok (toLE 8 b) else .error .short
   | .vec n, .vec xs => if xs.length = n then writeF32s xs else .error .short
   | .blob, .bytes b => do let l ← writeLenImpl b.length; pure (l ++ b)
-  | .string, .str b => do let l ← writeLenImpl b.length; pure (l ++ b)
+  | .string, .str b =>
+    -- a `str` always encodes to valid UTF-8 (lone surrogates raise UnicodeEncodeError)
+    if utf8Valid b then do let l ← writeLenImpl b.length; pure (l ++ b) else .error .unicode
   | .string, .bytes b => do let l ← writeLenImpl b.length; pure (l ++ b)
   | .mailbox, .mailbox ip p =>
     if ipOK ip && decide (p < 65536) then .ok (ip ++ toBE 2 p) else .error .other
@@ -336,5 +338,40 @@ def Ty.writableFields : List (String × Ty) → Bool
   | [] => true
   | (_, t) :: fs => t.writable && Ty.writableFields fs
 end
+
+mutual
+/-- What a written value reads back as: the reader turns a STRING payload that happens to
+be valid UTF-8 into text, whatever the writer was given. Identity on well-typed values. -/
+def norm : Ty → Val → Val
+  | .string, .bytes b => strOrBytes b
+  | .array e _, .list vs => .list (vs.map (norm e))
+  | .fixedDict fs _, .dict vs => .dict (normFields fs vs)
+  | .userType t, v => norm t v
+  | _, v => v
+def normFields : List (String × Ty) → List (String × Val) → List (String × Val)
+  | (_, t) :: fs, (k, v) :: vs => (k, norm t v) :: normFields fs vs
+  | _, vs => vs
+end
+
+/-! ### Method argument lists (`EntityMethod.create_from_stream / write_to_stream`) -/
+
+/-- `EntityMethod.write_to_stream`: arity check, then each argument in order -/
+def writeArgsAux (h : Nat) : List Ty → List Val → R Bytes
+  | t :: ts, v :: vs => do
+    let a ← writeImpl h t v
+    let b ← writeArgsAux h ts vs
+    pure (a ++ b)
+  | _, _ => .ok []
+
+def writeArgs (h : Nat) (ts : List Ty) (vs : List Val) : R Bytes :=
+  if ts.length = vs.length then writeArgsAux h ts vs else .error .other   -- RuntimeError
+
+/-- `EntityMethod.create_from_stream`: each argument in order with the method's header size -/
+def decodeArgs (h : Nat) : List Ty → Bytes → Except Err (List Val × Bytes)
+  | [], bs => .ok ([], bs)
+  | t :: ts, bs => do
+    let (v, r) ← decode h t bs
+    let (vs, r') ← decodeArgs h ts r
+    pure (v :: vs, r')
 
 end ReplayModel
